@@ -156,12 +156,15 @@ func TestVerifC12Cleaner(t *testing.T) {
 		}()
 		do := func(f func()) bool {
 			req <- f
-			tm := time.NewTimer(5 * time.Second)
-			defer tm.Stop()
+			// no wall clock: once every other goroutine is blocked the call has returned, or it never will
+			if !collection.VerifC12Quiesce() {
+				hung = true
+				return false
+			}
 			select {
 			case <-res:
 				return true
-			case <-tm.C:
+			default:
 				hung = true
 				return false
 			}
@@ -227,12 +230,8 @@ func TestVerifC12Cleaner(t *testing.T) {
 					return "TIMEOUT-loop"
 				}
 				// runTasks' goroutine, the drain workers and the taskRunner's goroutines have exited
-				if !verifh.SettleGoroutines(base, 5*time.Second) {
-					return "TIMEOUT-goroutines"
-				}
-				if n := runtime.NumGoroutine(); n < base {
-					base = n
-				}
+				// the call above returned with every goroutine blocked: runTasks' goroutine, the drain workers and the
+				// task runner's goroutines have finished (a task blocked for good would have made `do` report stuck)
 				taskRunner.Wait()
 				if !do(func() { _ = tw.RemoveTimer(c12cSentinel) }) {
 					return "TIMEOUT-loop"
